@@ -17,7 +17,7 @@ from dataclasses import dataclass, field
 
 VERIF = os.path.dirname(os.path.dirname(os.path.abspath(__file__)))
 REPO = os.environ.get("VERIF_REPO", "/repo")
-WORK = os.path.join(VERIF, ".work")
+WORK = os.environ.get("VERIF_WORK") or os.path.join(VERIF, ".work")
 RT = os.path.join(VERIF, "rt", "vrt.rs")
 GUARD = "peginator_verif"
 
